@@ -94,7 +94,11 @@ func c15(r *core.Run) {
 	// ---- G1 --------------------------------------------------------------
 	chkEnq := func(fn *ssa.Function, what string, wantCalleeIn func(cl *ssa.Function) bool) {
 		found := false
-		for _, f2 := range withAnon(fn) {
+		var scope []*ssa.Function
+		for _, h := range p.Helpers(fn) {
+			scope = append(scope, withAnon(h)...)
+		}
+		for _, f2 := range scope {
 			for _, c := range core.Calls(f2) {
 				if c.Common().StaticCallee() != a.Enqueue {
 					continue
